@@ -212,9 +212,11 @@ PROPS = {
                    "acquired before its buffer is allocated; DATA is split into pieces of min(remaining, read_frame_size) that exhaust the "
                    "announced length (no underflow); read_exact only appends, in order, exactly the bytes it removes from the frames and never "
                    "panics given what the dispatcher can deliver; a new transient stream starts from a clean state (no cached bytes, CLOSE "
-                   "flag reset); write_all/send_data emit DATA frames of at most write_frame_size <= 65535 bytes, so the length prefix is exact; "
+                   "flag reset), and it hands out exactly the front of the stream's pending bytes (cached frame ++ what the FIFO channel still "
+                   "holds before the next CLOSE) and leaves the rest pending -- no loss, duplication or reordering on the read path; write_all/send_data emit DATA frames of at most write_frame_size <= 65535 bytes, so the length prefix is exact; "
                    "Mux::verify accepts only configurations asking for at most 2^13 streams per direction, and spawn_streams -- whatever stream "
-                   "counts the PEER announces in its handshake -- allocates ids that fit the 13-bit field (StreamId::new's assert!, the `as u16`).",
+                   "counts the PEER announces in its handshake -- allocates ids that fit the 13-bit field (StreamId::new's assert!, the `as u16`) and creates per capability exactly "
+                   "min(own limit, limit the peer announced, 0 if it announced none) reusable streams.",
         level_note="Not decided: ReusableStream::run (three-way OPEN, lock hand-over between transient streams, CLOSE on drop) -- concurrent tasks "
                    "per stream id -- and therefore the count of simultaneously open transient streams; the "
                    "writer task's `as u16` (covered only through Config::verify's bound). read_frame_size > 0 is a precondition on the local "
@@ -281,11 +283,15 @@ PROPS = {
                    "underflow); a refused insert changes nothing. Call sites (gossip::Network::run_inbound_stream / run_outbound_stream, "
                    "consensus::Network::run_inbound_stream / run_outbound_stream, real text with the RPC service loop as one abstracted "
                    "statement): a key is registered in a pool only after the handshake ON THE SAME STREAM authenticated it for our genesis "
-                   "(precondition of insert), and remove() is reached only by the task whose insert() succeeded, for the same key (ghost flag).",
+                   "(precondition of insert), and remove() is reached only by the task whose insert() succeeded, for the same key (ghost flag). "
+                   "Construction: PoolWatch::new starts from an empty, well-formed pool with exactly the given configured set and quota; "
+                   "gossip::Network::new gives the inbound pool exactly static_inbound with quota dynamic_inbound_limit and the outbound pool "
+                   "exactly the dialled peers with quota 0; consensus::Network::new gives both pools exactly the committee of the epoch with "
+                   "quota 0 ('the validator network admits only members of the current committee').",
         level_note="Trusted: the noise handshake hash identifies the session and cannot be chosen by a peer (snow), signature predicates, "
                    "framing (send_proto/recv_proto stubs), im::HashMap/HashSet as finite map/set. Not decided: interleavings of concurrent "
-                   "inserts (serialised by the Watch mutex, A4), the RPC service loop, preface::connect, DNS resolution, and that the validator "
-                   "network passes the committee with quota 0 (PoolWatch::new call sites).",
+                   "inserts (serialised by the Watch mutex, A4), the RPC service loop, preface::connect, DNS resolution, the signature schemes "
+                   "themselves (ed25519 verify_strict, BLS: A3).",
         technique="contract-based deductive verification (Verus on extracted real functions and mechanically lifted closures)",
         design_ref="DESIGN.md §5 C12",
         assumptions=[],
